@@ -582,6 +582,42 @@ func (v *Validator) anyEntityDescendantOf(lhs, rhs entityLUB) bool {
 			if v.isEntityDescendant(lt, rt) {
 				return true
 			}
+			if v.isActionTypeDescendant(lt, rt) {
+				return true
+			}
+		}
+	}
+	return false
+}
+
+// isActionTypeDescendant reports whether some action of entity type child is a member (transitively) of an action group
+// of entity type ancestor. Action groups may live in another namespace, so the group's entity type (e.g. NS2::Action)
+// can differ from the member's (NS1::Action); the entity type hierarchy knows nothing about that.
+func (v *Validator) isActionTypeDescendant(child, ancestor types.EntityType) bool {
+	if !isActionEntity(child) || !isActionEntity(ancestor) {
+		return false
+	}
+	visited := make(map[types.EntityUID]bool)
+	var walk func(types.EntityUID) bool
+	walk = func(uid types.EntityUID) bool {
+		if visited[uid] {
+			return false
+		}
+		visited[uid] = true
+		a, ok := v.schema.Actions[uid]
+		if !ok {
+			return false
+		}
+		for p := range a.Entity.Parents.All() {
+			if p.Type == ancestor || walk(p) {
+				return true
+			}
+		}
+		return false
+	}
+	for uid := range v.schema.Actions {
+		if uid.Type == child && walk(uid) {
+			return true
 		}
 	}
 	return false
